@@ -70,6 +70,9 @@ def _local_error_class():
 
 
 LocalError = _local_error_class()
+# class names that do not make a valid DBus error name
+NonAsciiError = type('B\u0142\u0105dError', (Exception,), {})
+LongNameError = type('E' + 'x' * 260, (Exception,), {})
 
 
 class Unencodable:
@@ -116,7 +119,7 @@ def scenario(ctx):
         if kind in (2, 3, 4):
             cls = {2: OddError, 3: NamedError, 4: BadNamedError}[kind]
             if kind == 2 and ds.flag(0.4):
-                cls = ds.pick([Outer.NestedError, LocalError])
+                cls = ds.pick([Outer.NestedError, LocalError, NonAsciiError, LongNameError])
                 sim.probe('nested-exception-class')
             text = ds.pick(['kaboom', '', 'x: y', 'za\u017c\u00f3\u0142\u0107 \u20ac'])
             rec['outcome'] = 'raise'
@@ -417,7 +420,7 @@ def scenario(ctx):
             cls, text = rec['exc']
             if cls is NamedError:
                 name = NamedError.dbusErrorName
-            elif cls is BadNamedError:
+            elif cls in (BadNamedError, NonAsciiError, LongNameError):
                 name = 'org.txdbus.InvalidErrorName'
             else:
                 name = 'org.txdbus.PythonException.' + cls.__name__
@@ -426,7 +429,7 @@ def scenario(ctx):
                                 '%s(%r) answered %r, expected error %s'
                                 % (cls.__name__, text, r.describe(), name))
             msg = r.body[0] if r.body and isinstance(r.body[0], str) else None
-            if msg is None or (msg != text and not (cls is BadNamedError and msg.endswith(text))):
+            if msg is None or (msg != text and not (name == 'org.txdbus.InvalidErrorName' and msg.endswith(text))):
                 raise Violation('C10/error-message', cls.__name__,
                                 'error message %r, exception text %r' % (msg, text))
         sim.state(('invoke', rec['outcome'], 'reply'))
